@@ -69,7 +69,7 @@ func c01Run(c fw.Case) fw.Verdict {
 	r := &Runner{E: e, Rng: rng, Cfg: ScenCfg{
 		Type: c.Str("type", tKV), NPeers: np, Writers: wr, NSteps: c.Int("steps", 20),
 		Keys: []string{"a", "b", "ключ"}, OnDisk: c.Bool("ondisk"),
-		WWrite: 40, WDeliver: 25, WDeliverAll: 4, WDrop: 8, WDup: 6, WSync: 5, WBurst: 6, WCut: 3, WHeal: 4, WConc: 4, WFaultyDeliver: 5, WHoleHeal: 4,
+		WWrite: 40, WDeliver: 25, WDeliverAll: 4, WDrop: 8, WDup: 6, WSync: 5, WBurst: 6, WCut: 3, WHeal: 4, WConc: 4, WFaultyDeliver: 5, WHoleHeal: 4, WSnapshot: 3,
 		CheckEvery: 6,
 	}}
 	if r.Cfg.OnDisk {
